@@ -337,6 +337,20 @@ pub fn one_case(sc: &Scenario, id: String, mut rng: crate::rng::Rng) -> Case {
     c
 }
 
+/// construction with the k-th DMA allocation failing (k = 1..8) and drop, for every driver, both queue
+/// layouts — on behalf of C07 (nothing released that was not allocated, nothing released twice)
+pub fn fault_cases(ctx: &Ctx) -> Vec<Case> {
+    let mut scen: Vec<Scenario> = vec![];
+    for d in Drv::ALL {
+        for legacy in [false, true] {
+            for k in 1..=8usize {
+                scen.push(Scenario { cfg: NewCfg { d, offered: F_VERSION_1 | F_INDIRECT, legacy, fail: k, cfg: "ok", max: 65536, postfail: false }, usage: false });
+            }
+        }
+    }
+    crate::runner::par_cases(ctx, "C07", "alloc-fault", scen.len(), |i, id| one_case(&scen[i], id, ctx.case_rng("c07-fault", i)))
+}
+
 pub fn run(ctx: &Ctx) -> (Vec<Case>, String, bool, BTreeMap<String, String>) {
     let mut scen: Vec<Scenario> = vec![];
     let words: Vec<u64> = {
